@@ -1,7 +1,7 @@
 (** C05: generic definitions are recovered as generics (source round trip). *)
 From Coq Require Import List NArith String Bool.
 From V Require Import Base.Util Base.Strings Base.Result Model.Registry Model.Settings Model.Subst
-  Model.TypePath Model.Program Model.ProgramTeq Model.Program1 Checkers.Parse Checkers.Sem Corr.RunTG Corr.CheckTG.
+  Model.TypePath Model.Program Model.ProgramSkel Model.ProgramTeq Model.Program1 Checkers.Parse Checkers.Sem Corr.RunTG Corr.CheckTG.
 Import ListNotations.
 Open Scope string_scope. Open Scope list_scope.
 
@@ -195,3 +195,35 @@ Definition hyp_all_cf1 (c : c05_case) : bool :=
 
 (** cases on which the restated condition admits a program the [canon] one rejects *)
 Definition hyp_cf1_only (c : c05_case) : bool := hyp_all_cf1 c && negb (hyp_all_cf c).
+
+(** every hypothesis of [C05_skeleton_is_source1] / [C05_one_item1] (all of them decidable) holds
+    of the case, for EVERY interned instantiation: the real registry is the program's
+    ([registry_of1b], prelude entries without docs), the settings are compatible with every
+    definition, every instantiation is coincidence-free on ids *)
+Definition hyp_thm1_premises (c : c05_case) : bool :=
+  let defs := pg_defs (c5_prog c) in
+  let s := settings_of (tg_spec (c5_tg c)) in
+  hyp_registry_of1 c && hyp_prelude_nodocs c && prelude_okb s && order_resolvesb s &&
+  forallb (fun kd : nat * sdef =>
+             let d := snd kd in
+             def_okb s d && forallb (fun f => no_cow_cow (sf_ty f)) (def_sfields d) && box_names_okb defs d &&
+             forallb (fun args => instantiation_cf1 defs d args && compact_fields_okb1 defs d args)
+                     (insts_of c (fst kd)))
+          (defs_indexed c).
+
+(** ... on a registry with identity duplicates: the cases the [..1] theorems speak about and the
+    theorems on [RegistryOf] do not *)
+Definition hyp_thm1_on_duplicates (c : c05_case) : bool := hyp_thm1_premises c && hyp_identity_duplicates c.
+
+(** the same for the theorems on [RegistryOf] ([C05_program_skeleton_consistent]) *)
+Definition hyp_thm_premises (c : c05_case) : bool :=
+  let defs := pg_defs (c5_prog c) in
+  let s := settings_of (tg_spec (c5_tg c)) in
+  hyp_registry_of c && hyp_prelude_nodocs c && prelude_okb s && order_resolvesb s &&
+  forallb (fun kd : nat * sdef =>
+             let d := snd kd in
+             def_okb s d && forallb (fun f => no_cow_cow (sf_ty f)) (def_sfields d) && box_names_okb defs d &&
+             forallb (fun args => instantiation_cf defs d args && list_eqb src_eqb (map canon args) args &&
+                                  compact_fields_okb defs d args)
+                     (insts_of c (fst kd)))
+          (defs_indexed c).
